@@ -1,0 +1,17 @@
+//go:build verif
+
+package sql
+
+import (
+	an "github.com/benoitkugler/gomacro/analysis"
+	"github.com/benoitkugler/gomacro/analysis/sql"
+	gen "github.com/benoitkugler/gomacro/generator"
+)
+
+// Hooks for the verification harness in /verif. Compiled only with `-tags verif`.
+
+func VerifGenerateCustomConstraint(ana *an.Analysis, ta sql.Table, rep gen.TableNameReplacer, content string) string {
+	return generateCustomConstraint(ana, ta, rep, content)
+}
+
+func VerifTypeID(ty an.Type) string { return typeID(ty) }
